@@ -272,8 +272,10 @@ namespace SharedHeap
     connections on one shared pool.  If it is fault-free — no connection touches a buffer it does not
     own or reads bytes it did not write (C11's conclusion), and the allocator never hands out a live
     buffer (C20) — then for every connection `a`: its own operations alone, run from the initial heap,
-    are fault-free too, and put exactly the same bytes on `a`'s wire.  The projection of the
-    interleaved run to `a` is `a`'s solo run. -/
+    are fault-free too, and hand exactly the same buffers, call by call, to `a`'s `conn.Write` — the
+    `pieces` of the pipeline model (a).  The projection of the interleaved run to `a` is `a`'s solo
+    run.  With `Pipeline.c10_wire_prefix` for `a` alone: under any number of concurrent connections
+    what `a`'s peer receives is a prefix of `a`'s own `resp₁ ++ … ++ respₘ`. -/
 theorem c10_noninterference (a : Cid) (acts : List (Cid × Op)) (g' : G) (h : run init acts = .ok g') :
     ∃ s', run init (proj a acts) = .ok s' ∧ s'.wire a = g'.wire a := by
   obtain ⟨s', h1, h2⟩ := sim_run a acts init init g' (sim_init a) h
@@ -301,7 +303,7 @@ def exGood : List (Cid × Op) :=
     connection 1 is handed buffer 7 in between.  Unchecked, connection 0's wire differs from its solo
     run and carries connection 1's bytes (`0xBB`). -/
 theorem c10_noninterference_uaf_counterexample :
-    (runU init exUaf).wire 0 = [1, 2, 0xBB, 3] ∧ (runU init (proj 0 exUaf)).wire 0 = [1, 2, 3] ∧
+    (runU init exUaf).wire 0 = [[1, 2], [0xBB, 3]] ∧ (runU init (proj 0 exUaf)).wire 0 = [[1, 2], [3]] ∧
       faultOf (run init exUaf) = some .notOwner := by
   refine ⟨by decide, by decide, by decide⟩
 
@@ -309,12 +311,12 @@ theorem c10_noninterference_uaf_counterexample :
     without resetting its length): the bytes connection 1 left in the pooled buffer go out on
     connection 0's wire. -/
 theorem c10_noninterference_stale_counterexample :
-    (runU init exStale).wire 0 = [0xBB, 0xBB, 5] ∧ (runU init (proj 0 exStale)).wire 0 = [0, 0, 5] ∧
+    (runU init exStale).wire 0 = [[0xBB, 0xBB, 5]] ∧ (runU init (proj 0 exStale)).wire 0 = [[0, 0, 5]] ∧
       faultOf (run init exStale) = some .staleRead := by
   refine ⟨by decide, by decide, by decide⟩
 
 /-- non-vacuity: two connections recycling the same buffer correctly -/
-example : faultOf (run init exGood) = none ∧ (runU init exGood).wire 0 = [1] ∧ (runU init exGood).wire 1 = [9] := by
+example : faultOf (run init exGood) = none ∧ (runU init exGood).wire 0 = [[1]] ∧ (runU init exGood).wire 1 = [[9]] := by
   decide
 
 end SharedHeap
